@@ -7,6 +7,8 @@
 //! - `>=1.2.3`, `>1.2.3`, `<=1.2.3`, `<1.2.3`, `=1.2.3` - comparison operators
 //! - `1.2.*`, `1.*`, `*` - wildcards
 
+use std::cmp::Ordering;
+
 use semver::Version;
 
 use crate::parser::types::RegistryType;
@@ -91,9 +93,11 @@ impl VersionRequirement {
 
     /// Check if a version satisfies this requirement
     fn satisfies(&self, version: &Version) -> bool {
+        // SemVer precedence: build metadata (1.2.3+build) takes no part in comparisons
+        let cmp = |v: &Version| version.cmp_precedence(v);
         match self {
             VersionRequirement::Caret(v) => {
-                if version < v {
+                if cmp(v) == Ordering::Less {
                     return false;
                 }
                 // Cargo caret behavior:
@@ -115,13 +119,13 @@ impl VersionRequirement {
             }
             VersionRequirement::Tilde(v) => {
                 // ~1.2.3 -> >=1.2.3 <1.3.0
-                version >= v && version.major == v.major && version.minor == v.minor
+                cmp(v) != Ordering::Less && version.major == v.major && version.minor == v.minor
             }
-            VersionRequirement::Exact(v) => version == v,
-            VersionRequirement::Gte(v) => version >= v,
-            VersionRequirement::Gt(v) => version > v,
-            VersionRequirement::Lte(v) => version <= v,
-            VersionRequirement::Lt(v) => version < v,
+            VersionRequirement::Exact(v) => cmp(v) == Ordering::Equal,
+            VersionRequirement::Gte(v) => cmp(v) != Ordering::Less,
+            VersionRequirement::Gt(v) => cmp(v) == Ordering::Greater,
+            VersionRequirement::Lte(v) => cmp(v) != Ordering::Greater,
+            VersionRequirement::Lt(v) => cmp(v) == Ordering::Less,
             VersionRequirement::Any => true,
             VersionRequirement::WildcardMajor(major) => version.major == *major,
             VersionRequirement::WildcardMinor(major, minor) => {
@@ -220,7 +224,7 @@ impl VersionMatcher for CratesVersionMatcher {
             return CompareResult::Latest;
         };
 
-        if base < latest {
+        if base.cmp_precedence(&latest) == Ordering::Less {
             CompareResult::Outdated
         } else {
             CompareResult::Newer
